@@ -177,76 +177,128 @@ def r3(ctx, facts):
         raise AnchorLost("compute_next never assigns its return place")
 
 
+def _own_timestamp_none(p, df, bb, gts):
+    """is `statement.get_timestamp()` known to be None where block bb is entered? Also through `match (get_timestamp(), gen) {..}`"""
+    stt = df.state_in.get(bb) or {}
+    gdest = {gc.dest[0] for gc in gts}
+    for k, v in stt.items():
+        if k[0] != "disc" or not in_set(v, {0}):
+            continue
+        root, path = k[1]
+        if not path:
+            if root in gdest or (gdest & backward_slice(p, ["c", [root, []]])[0]):
+                return True
+            r0 = df.disc_root((root, ()))
+            if r0 and r0[0] in gdest:
+                return True
+        elif len(path) == 1 and path[0].isdigit():
+            # field i of a tuple that was built from the call's result
+            for d in p.defs.get(root, []):
+                if d[0] == "stmt" and d[3][0] == "agg" and d[3][1][0] == "tuple" and int(path[0]) < len(d[3][2]):
+                    op = d[3][2][int(path[0])]
+                    if op[0] in ("c", "m") and (op[1][0] in gdest or gdest & backward_slice(p, op)[0]):
+                        return True
+    return any(in_set(stt.get(("disc", df.disc_root((g, ())))), {0}) for g in gdest)
+
+
+def _closure_sites(facts, cpath):
+    import json as _json
+    out = []
+    for p in facts.bodies.mentioning(_json.dumps(cpath)):
+        for bb in p.live_blocks:
+            for st in p.stmts(bb):
+                if st[0] == "A" and st[2][0] == "agg" and st[2][1][0] == "closure" and st[2][1][1] == cpath:
+                    out.append((p, bb, st))
+    return out
+
+
+def _lazy_fallback(facts, body, bb, found, depth=0):
+    """Is the call in block bb of `body` executed only when the statement's own timestamp is absent? Climbs through closures
+    (to the combinator they are handed to) and through private helpers (to their callers). Records in `found` the place where
+    the decision is made: (function, block of the or_else call | block of the guarded call, kind)."""
+    if depth > 6:
+        return False, "nesting too deep"
+    if body.kind == "Closure" and not body.is_coroutine:
+        sites = _closure_sites(facts, body.path)
+        if not sites:
+            return False, "closure %s is never created" % fn_short(body.path)
+        for p, cbb, st in sites:
+            df = df_of(p, facts)
+            work, seen_l = [st[1][0]], set()
+            used = False
+            while work:
+                g = work.pop()
+                if g in seen_l:
+                    continue
+                seen_l.add(g)
+                for ubb, kind, op in uses_of_local(p, g):
+                    if kind[0] == "stmt" and kind[1][2][0] in ("use", "ref") and not kind[1][1][1]:
+                        work.append(kind[1][1][0])
+                        continue
+                    if kind[0] != "arg":
+                        return False, "the closure asking the generator escapes in %s" % fn_short(p.path)
+                    used = True
+                    t = p.term(ubb)
+                    d = t[1].get("def", "")
+                    if d.endswith("core::option::Option::<T>::or_else") and kind[1] == 1:
+                        recv = df.expr_of_operand(t[2][0])
+                        ok = recv[0] == "call" and (p.term(recv[1])[1].get("def", "") + (p.term(recv[1])[1].get("res") or "")).find("get_timestamp") >= 0
+                        found.append((p, ubb, "or_else", ok, df.fmt_expr(recv)))
+                        if not ok:
+                            return False, "or_else receiver is %s, not the statement's get_timestamp()" % df.fmt_expr(recv)
+                    else:
+                        # handed to another combinator (`generator.as_ref().map(|g| g.next_timestamp())`): that call must be lazy itself
+                        ok, why = _lazy_fallback(facts, p, ubb, found, depth + 1)
+                        if not ok:
+                            return False, why
+            if not used:
+                return False, "closure created but not used in %s" % fn_short(p.path)
+        return True, ""
+    # a function / request future: in the region where the statement has no timestamp of its own?
+    df = df_of(body, facts)
+    gts = [c for bbx, c in body.calls() if bbx in body.live_blocks and "get_timestamp" in ((c.callee.get("def") or "") + (c.callee.get("res") or ""))]
+    if gts and _own_timestamp_none(body, df, bb, gts):
+        found.append((body, bb, "explicit", True, "get_timestamp() == None region"))
+        return True, ""
+    if not body.is_coroutine and body.kind != "Closure" and not gts:
+        cs = [(cb, cbb) for cb, cbb in facts.callers_of(body.path) if cb.crate == "scylla" and cbb in cb.live_blocks]
+        if cs:
+            for cb, cbb in cs:
+                ok, why = _lazy_fallback(facts, cb, cbb, found, depth + 1)
+                if not ok:
+                    return False, why
+            return True, ""
+    return False, "next_timestamp() is reached in %s where the statement's own timestamp is not known to be absent" % fn_short(body.path)
+
+
 def r5(ctx, facts):
     r = ctx.rule("R5", "generator consulted only as fallback of statement.get_timestamp(); frame timestamp is that result", floor=10)
     callers = [(b, bb) for b, bb in facts.callers_of(TRAIT_M) if b.crate == "scylla" and bb in b.live_blocks]
     if len(callers) < 1:
         raise AnchorLost("no call site of TimestampGenerator::next_timestamp in the driver")
-    # outermost closures whose code (possibly through nested closures) asks the generator
-    tops = {}
+    found = []
+    failed = 0
     for cb, cbb in callers:
-        key = fn_short(cb.path)
-        if cb.kind != "Closure":
-            r.fail("caller-shape:" + key, "next_timestamp() is called eagerly, outside a lazily evaluated fallback closure", cb.term_span(cbb))
-            continue
-        k0 = cb
-        while True:
-            par = facts.body(k0.parent) if k0.parent else None
-            if par is None or par.kind != "Closure" or par.is_coroutine:
-                break
-            k0 = par
-        tops[k0.path] = k0
-    import json as _json
-    sites = []
-    for k0p in sorted(tops):
-        for p in facts.bodies.mentioning(_json.dumps(k0p)):
-            for bb in p.live_blocks:
-                for st in p.stmts(bb):
-                    if st[0] == "A" and st[2][0] == "agg" and st[2][1][0] == "closure" and st[2][1][1] == k0p:
-                        sites.append((p, (bb, st)))
-    if len(sites) < 3:
-        raise AnchorLost("expected >=3 places where the generator fallback closure is created, found %d" % len(sites))
-    for p, site in sites:
+        ok, why = _lazy_fallback(facts, cb, cbb, found)
+        if not ok:
+            failed += 1
+            r.instance("fallback-only-in-or_else:" + fn_short(cb.path), False,
+                       "the timestamp generator must be asked solely as the lazily evaluated fallback of the statement's own timestamp "
+                       "(Option::or_else on get_timestamp(), or a call in the `get_timestamp() == None` region): " + why, cb.term_span(cbb))
+    decided = {}
+    for p, ubb, kind, ok, txt in found:
+        decided.setdefault((p.path, ubb), (p, ubb, kind, ok, txt))
+    if len(decided) < 3 and not failed:
+        raise AnchorLost("expected >=3 places where the generator fallback is decided (query / execute / batch), found %d" % len(decided))
+    for (ppath, ubb), (p, _u, kind, ok, txt) in sorted(decided.items()):
         key = fn_short(p.path)
         df = df_of(p, facts)
-        g = site[1][1][0]
-        uses = uses_of_local(p, g)
-        orelse = None
-        bad = []
-        for ubb, kind, op in uses:
-            t = p.term(ubb)
-            if kind[0] == "arg" and t[1].get("def", "").endswith("core::option::Option::<T>::or_else") and kind[1] == 1:
-                orelse = ubb
-            elif kind[0] == "stmt" and kind[1][2][0] == "use":
-                # moved into another temp: follow one hop
-                l2 = kind[1][1][0]
-                for ubb2, kind2, _ in uses_of_local(p, l2):
-                    t2 = p.term(ubb2)
-                    if kind2[0] == "arg" and t2[1].get("def", "").endswith("core::option::Option::<T>::or_else") and kind2[1] == 1:
-                        orelse = ubb2
-                    else:
-                        bad.append(ubb2)
-            else:
-                bad.append(ubb)
-        # the explicit form: `match stmt.get_timestamp() { Some(t) => Some(t), None => generator.map(|g| g.next_timestamp()) }`
-        gts = [c for c in p.calls() if False]
         gts = [c for bbx, c in p.calls() if bbx in p.live_blocks and "get_timestamp" in ((c.callee.get("def") or "") + (c.callee.get("res") or ""))]
-        explicit = None
-        if orelse is None and len(bad) == 1 and gts:
-            ub = bad[0]
-            stt = df.state_in.get(ub) or {}
-            none_known = any(in_set(stt.get(("disc", df.disc_root((gc.dest[0], ())))), {0}) or in_set(stt.get(("disc", (gc.dest[0], ()))), {0}) for gc in gts)
-            if none_known and p.term(ub)[0] == "call":
-                explicit = ub
-        r.instance("fallback-only-in-or_else:" + key, (orelse is not None and not bad) or explicit is not None,
-                   "the generator closure must be used solely as the lazily evaluated fallback of the statement's own timestamp (Option::or_else, or a call in the `get_timestamp() == None` region)", p.stmt_span(site[1]))
-        if orelse is None and explicit is None:
-            continue
+        orelse = ubb if kind == "or_else" else None
+        explicit = ubb if kind == "explicit" else None
+        r.instance("fallback-only-in-or_else:" + key, ok, "the generator is asked as the fallback of %s" % txt, p.term_span(ubb))
         if orelse is not None:
-            oc = p.term(orelse)
-            recv = df.expr_of_operand(oc[2][0])
-            ok = recv[0] == "call" and (p.term(recv[1])[1].get("def", "") + p.term(recv[1])[1].get("res", "")).find("get_timestamp") >= 0
-            r.instance("or_else-on-statement-timestamp:" + key, ok, "or_else receiver must be statement.get_timestamp(); it is " + df.fmt_expr(recv), p.term_span(orelse))
+            r.instance("or_else-on-statement-timestamp:" + key, ok, "or_else receiver must be statement.get_timestamp(); it is " + txt, p.term_span(orelse))
         else:
             r.ok("or_else-on-statement-timestamp:" + key, "explicit match on get_timestamp()", p.term_span(explicit))
         # frame field
